@@ -10,7 +10,9 @@
                            I kernels nsqscale c,sse4_1 <args…>      O c=<state> sse4_1=<state>
       helpers <seed> <n>   silk_INVERSE32_varQ, silk_DIV32_varQ (silk/Inlines.h), silk_sar_round_smulww
                            (NSQ_del_dec_avx2.c) against the C expression RSHIFT_ROUND(SMULWW)
-      stdin                re-run recorded `kernels nsqscale|invvarq|divvarq|sarround` lines */
+      lanes <seed> <n>     the 4-lane helpers of NSQ_del_dec_avx2.c (silk_mm_add_sat_epi32, _sub_sat_, _limit_, _smulww_, _smulwb_,
+                           _srai_round_ below its wrap point, silk_mm256_rand_epi32) against the C macros, lane by lane
+      stdin                re-run recorded `kernels nsqscale|invvarq|divvarq|sarround|lane` lines */
 #include "vcommon.h"
 #include "silk/NSQ.c"
 #include "silk/x86/NSQ_sse4_1.c"
@@ -152,6 +154,48 @@ static void run_helpers(uint64_t seed, long n)
    printf("# helpers cases=%ld\n", g_cases);
 }
 
+static opus_int32 lane_of(__m128i v, int k) { opus_int32 t[4]; _mm_storeu_si128((__m128i *)(void *)t, v); return t[k]; }
+static void emit_lane(const char *op, opus_int32 a, opus_int32 b, opus_int32 c, int k)
+{
+   /* the operand under test sits in lane k, the other lanes hold unrelated values */
+   opus_int32 va[4] = {11, -22, 33, -44}, vb[4] = {5, 6, -7, -8}; __m128i A, B, R; opus_int32 simd = 0, ref = 0;
+   va[k] = a; vb[k] = b;
+   A = _mm_loadu_si128((__m128i *)(void *)va); B = _mm_loadu_si128((__m128i *)(void *)vb);
+   printf("I kernels lane %s avx2,c %d %d %d\n", op, (int)a, (int)b, (int)c); fflush(stdout);
+   if (!strcmp(op, "addsat")) { R = silk_mm_add_sat_epi32(A, B); ref = silk_ADD_SAT32(a, b); }
+   else if (!strcmp(op, "subsat")) { R = silk_mm_sub_sat_epi32(A, B); ref = silk_SUB_SAT32(a, b); }
+   else if (!strcmp(op, "limit")) { R = silk_mm_limit_epi32(A, b, c); ref = silk_LIMIT_32(a, b, c); }
+   else if (!strcmp(op, "smulww")) { R = silk_mm_smulww_epi32(A, b); ref = silk_SMULWW(a, b); }
+   else if (!strcmp(op, "smulwb")) { R = silk_mm_smulwb_epi32(A, b); ref = silk_SMULWB(a, b); }
+   else if (!strcmp(op, "srairound")) { R = silk_mm_srai_round_epi32(A, b); ref = silk_RSHIFT_ROUND(a, b); }
+   else { R = silk_mm256_rand_epi32(A); ref = silk_RAND(a); }
+   simd = lane_of(R, k);
+   printf("O avx2=%d c=%d\n", (int)simd, (int)ref); g_cases++;
+}
+static void run_lanes(uint64_t seed, long n)
+{
+   vrng r; long i;
+   r.s = seed ^ 0x1A9E5ULL; r.s = vnext(&r) + 80;
+   for (i = 0; i < n; i++) {
+      opus_int32 a = r32(&r), b = r32(&r); int k = vbelow(&r, 4);
+      if (vchance(&r, 30)) b = vchance(&r, 50) ? a : -a - (a == -2147483647 - 1 ? 0 : 0) ;
+      emit_lane("addsat", a, b, 0, k);
+      emit_lane("subsat", a, b, 0, k);
+      emit_lane("smulww", a, b, 0, k);
+      emit_lane("smulwb", a, b, 0, k);
+      emit_lane("rand", a, 0, 0, k);
+      { opus_int32 l1 = vchance(&r, 70) ? -(31 << 10) : r32(&r), l2 = vchance(&r, 70) ? 30 << 10 : r32(&r);
+        if (vchance(&r, 20)) { opus_int32 t = l1; l1 = l2; l2 = t; }
+        emit_lane("limit", vchance(&r, 50) ? a : vrange(&r, -40000, 40000), l1, l2, k); }
+      { int bits = vchance(&r, 50) ? 4 : (vchance(&r, 50) ? 10 : vrange(&r, 2, 30));
+        /* below the wrap point of the SIMD helper: a + 2^(bits-1) < 2^31 (see sraiRoundLane_eq; the wrap domain is reported
+           as an observation, not compared) */
+        opus_int32 lim = 2147483647 - (1 << (bits - 1)), x = a > lim ? lim : a;
+        emit_lane("srairound", x, bits, 0, k); }
+   }
+   printf("# lanes cases=%ld\n", g_cases);
+}
+
 static int parse_list(const char *s, long *v, int cap)
 {
    int n = 0;
@@ -170,6 +214,7 @@ static void run_stdin(void)
       if (!strcmp(tok[1], "invvarq") && nt == 4) emit_inv(atoi(tok[2]), atoi(tok[3]));
       else if (!strcmp(tok[1], "divvarq") && nt == 5) emit_div(atoi(tok[2]), atoi(tok[3]), atoi(tok[4]));
       else if (!strcmp(tok[1], "sarround") && nt == 6) emit_sar(atoi(tok[3]), atoi(tok[4]), atoi(tok[5]));
+      else if (!strcmp(tok[1], "lane") && nt == 7) emit_lane(tok[2], atoi(tok[4]), atoi(tok[5]), atoi(tok[6]), 2);
       else if (!strcmp(tok[1], "nsqscale") && nt == 22) {
          static sc_case c; int n;
          memset(&c, 0, sizeof c);
@@ -195,8 +240,9 @@ int main(int argc, char **argv)
    vinstall_traps();
    if (argc >= 4 && !strcmp(argv[1], "scale")) run_scale(strtoull(argv[2], 0, 10), atol(argv[3]));
    else if (argc >= 4 && !strcmp(argv[1], "helpers")) run_helpers(strtoull(argv[2], 0, 10), atol(argv[3]));
+   else if (argc >= 4 && !strcmp(argv[1], "lanes")) run_lanes(strtoull(argv[2], 0, 10), atol(argv[3]));
    else if (argc >= 2 && !strcmp(argv[1], "stdin")) run_stdin();
-   else { fprintf(stderr, "usage: c15_nsq scale <seed> <n> | helpers <seed> <n> | stdin\n"); return 64; }
+   else { fprintf(stderr, "usage: c15_nsq lanes <seed> <n> | scale <seed> <n> | helpers <seed> <n> | stdin\n"); return 64; }
    fflush(stdout);
    return 0;
 }
